@@ -60,4 +60,12 @@ CtAdmits(method, consumes, noct, ct) ==
            parts == SplitOn(eff, ",")
        IN \E i \in 1..Len(parts) : \E j \in 1..Len(consumes) :
             consumes[j] = "*/*" \/ consumes[j] = MediaOf(parts[i])
+
+\* Layer B: Route.matchesAccept as the code computes it (route.go:86); "" is sent as */*
+MatchesAcceptG(prod, hdr) ==
+  LET parts == SplitOn(hdr, ",") IN
+  \E i \in 1..Len(parts) :
+     LET mt == MediaOf(parts[i]) IN
+     mt = "*/*" \/ \E j \in 1..Len(prod) : prod[j] = "*/*" \/ prod[j] = mt
+
 =============================================================================
